@@ -106,19 +106,290 @@ Ltac step_cases H :=
 
 
 
+
 Ltac easy_field :=
   first [ assumption | reflexivity | discriminate | congruence | lia
         | (intros; congruence) | (intros; discriminate)
-        | (intros [? [? ?]]; congruence) | (constructor; auto; cbn; auto; fail) | (unfold chan_cap in *; lia) ].
+        | (intros [? [? ?]]; congruence) | (unfold chan_cap in *; lia) ].
 Ltac norm :=
   unfold set_wp, set_rp, w_finish, w_send, r_finish, in_flight in *; cbn [chan cur stopped wdl rdl wp rp hist] in *;
   repeat match goal with H : wp _ = _ |- _ => rewrite H in * end;
   repeat match goal with H : rp _ = _ |- _ => rewrite H in * end; cbn in *.
 
-Lemma test s l s' : inv s -> step s l = Some s' -> inv s'.
+Lemma is_nil_true {A} (l : list A) : is_nil l = true -> l = [].
+Proof. destruct l; [reflexivity|discriminate]. Qed.
+
+(* state before the copy of pipeConn.read: `acc` already handed over, bb = cur t *)
+Lemma inv_r_copy t n rem acc :
+  read_h (hist t) ++ acc ++ cur t ++ concat (chan t) = written_h (hist t) ->
+  (w_sc (wp t) = Some true -> stopped t = true) ->
+  (w_past_check (wp t) = true -> w_sc (wp t) = Some false) ->
+  Forall ev_sc_ok (hist t) -> Forall ev_err_ok (hist t) -> eof_ok (hist t) ->
+  (existsb is_eof (hist t) = true -> stopped t = true) ->
+  lenN (chan t) <= chan_cap ->
+  rem + lenN acc = n -> 0 < rem ->
+  inv (r_copy t n rem acc).
+Proof.
+  intros Hs Hsc Hpast Hhsc Hherr Heof Heofs Hcap Hrem Hpos.
+  pose proof (r_copy_stream t n rem acc) as Hst. cbv zeta in Hst.
+  destruct (r_copy_cases t n rem acc) as (Ech & Est & _ & _ & Ewp & C). cbv zeta in *.
+  set (t' := r_copy t n rem acc) in *.
+  assert (Hstream : read_h (hist t') ++ in_flight t' = written_h (hist t')).
+  { unfold in_flight. rewrite Ech.
+    destruct C as [(_ & _ & _ & Hh)|(_ & _ & _ & Hh & _)]; rewrite Hh at 2; cbn [written_h];
+      rewrite <- Hs; rewrite !app_assoc; rewrite !app_assoc in Hst; now rewrite Hst. }
+  destruct C as [(Hk & Hr & Hc & Hh)|(Hk & Hr & Hc & Hh & Hkk)].
+  - constructor; try exact Hstream; rewrite ?Hr, ?Hh, ?Est, ?Ewp, ?Ech; cbn; auto; try easy_field.
+    + constructor; auto. cbn. auto.
+    + constructor; auto. cbn. split; [congruence|].
+      rewrite lenN_app. assert (lenN (firstn (N.to_nat (N.min rem (lenN (cur t)))) (cur t)) = N.min rem (lenN (cur t))).
+      { apply lenN_firstn_le. lia. } lia.
+    + split; [discriminate|assumption].
+  - constructor; try exact Hstream; rewrite ?Hr, ?Hh, ?Est, ?Ewp, ?Ech; cbn; auto; try easy_field.
+    + intros n0 rem0 k E. inversion E; subst. rewrite lenN_app. lia.
+Qed.
+
+
+Lemma inv_r_take s n rem acc s' :
+  inv s -> rp s <> RIdle -> racc (rp s) = acc -> r_rem (rp s) = Some (n, rem, lenN acc) ->
+  r_take s n rem acc = Some s' -> inv s'.
+Proof.
+  intros I Hne Hacc Hrem Ht. destruct I as [Icur Imb Istream Isc Ipast Ihsc Iherr Ieof Ieofs Iafter Icap Irem].
+  unfold r_take in Ht. destruct (chan s) as [|b rest] eqn:Ec; [discriminate|]. inversion Ht; subst s'; clear Ht.
+  destruct (Irem _ _ _ Hrem) as [R1 R2].
+  apply inv_r_copy; cbn [chan cur stopped wdl rdl wp rp hist]; auto.
+  - unfold in_flight in Istream. rewrite (Icur Hne), Hacc, Ec in Istream. cbn in Istream. exact Istream.
+  - unfold lenN in *. cbn in Icap. lia.
+Qed.
+
+Lemma inv_r_head s n : inv s -> rp s = RIdle -> inv (r_head s n n [] true).
+Proof.
+  intros I Hr. destruct I as [Icur Imb Istream Isc Ipast Ihsc Iherr Ieof Ieofs Iafter Icap Irem].
+  unfold in_flight in Istream. rewrite Hr in Istream. cbn in Istream.
+  unfold r_head. destruct (n =? 0) eqn:En.
+  - constructor; norm; try easy_field.
+    + now rewrite app_nil_r.
+    + constructor; auto. exact I.
+    + constructor; auto. cbn. split; [congruence|lia].
+    + split; [discriminate|assumption].
+  - apply N.eqb_neq in En. destruct (cur s) as [|c cs] eqn:Ec.
+    + constructor; norm; try easy_field.
+      * rewrite Ec. exact Istream.
+      * intros ? ? ? E; inversion E; subst. lia.
+    + apply inv_r_copy; auto.
+      * rewrite Ec. exact Istream.
+      * cbn. lia.
+      * lia.
+Qed.
+
+
+Lemma has_room_cap s p : has_room s = true -> lenN (chan s ++ [p]) <= chan_cap.
+Proof. unfold has_room, chan_cap, lenN. rewrite app_length. cbn [length]. intros H. apply N.ltb_lt in H. lia. Qed.
+
+Lemma inv_step s l s' : inv s -> step s l = Some s' -> inv s'.
 Proof.
   intros I H. step_cases H.
+  all: try (apply inv_r_head; assumption).
+  all: try match goal with
+           | Ht : r_take _ _ _ _ = Some _, Hr : rp _ = _ |- _ =>
+               eapply inv_r_take; [exact I | rewrite Hr; discriminate | rewrite Hr; reflexivity | rewrite Hr; reflexivity | exact Ht]
+           end.
   all: destruct I as [Icur Imb Istream Isc Ipast Ihsc Iherr Ieof Ieofs Iafter Icap Irem].
   all: try (constructor; norm; try easy_field).
-  all: match goal with |- ?g => idtac "GOAL" g end.
-Abort.
+  all: try (match goal with H : is_nil (chan _) = true |- _ => apply is_nil_true in H; rewrite H in *; cbn in * end).
+  all: try solve [ constructor; [exact Logic.I | assumption] ].
+  all: try solve [ split; [discriminate | assumption] ].
+  all: try solve [ apply has_room_cap; assumption ].
+  all: try solve [ intros _; apply Icur; discriminate ].
+  all: try solve [ intros ? ? ? E; inversion E; subst; edestruct Irem as [R1 R2]; [reflexivity|]; cbn in *; lia ].
+  (* sc flags *)
+  all: try solve [ intros _; destruct sc; [rewrite Isc in *; [discriminate|reflexivity] | reflexivity] ].
+  all: try solve [ constructor; [ cbn; destruct sc; [reflexivity || (specialize (Ipast eq_refl); discriminate) | exact Logic.I] | assumption ] ].
+  (* streams *)
+  all: try solve [ rewrite concat_app; cbn [concat]; rewrite app_nil_r, <- Istream; rewrite <- ?app_assoc; reflexivity ].
+  all: try solve [ rewrite (Imb _ _ _ eq_refl) in Istream; rewrite (Icur ltac:(discriminate)) in *; exact Istream ].
+  all: try solve [ rewrite <- ?app_assoc; cbn; exact Istream ].
+  all: try solve [ constructor; [ cbn; split; [congruence|]; edestruct Irem as [R1 R2]; [reflexivity|]; cbn in *; lia | assumption ] ].
+  all: try solve [ constructor; [ cbn; split; [reflexivity|lia] | assumption ] ].
+  all: try solve [ split; [ intros _; rewrite app_nil_r; rewrite (Icur ltac:(discriminate)) in Istream; cbn in Istream; rewrite app_nil_r in Istream; exact Istream | assumption ] ].
+  all: try solve [ intros _; apply Iafter; eauto ].
+  - intros _. destruct sc; [|reflexivity]. specialize (Isc eq_refl). congruence.
+  - intros ? ? ? E; inversion E; subst. pose proof (Imb _ _ _ eq_refl); subst.
+    edestruct Irem as [R1 R2]; [reflexivity|]. cbn in *. lia.
+Qed.
+
+Lemma reach_inv tr s : reach tr s -> inv s.
+Proof. unfold reach. apply (inv_run inv inv_step). exact inv_init. Qed.
+
+(* ---------- consequences, in the form used by Properties/C33.v ---------- *)
+
+(* bytes read so far ++ bytes held between the ends = bytes successfully written so far *)
+Lemma stream_exact tr s : reach tr s -> read_h (hist s) ++ in_flight s = written_h (hist s).
+Proof. intros R. exact (i_stream _ (reach_inv _ _ R)). Qed.
+
+Lemma stream_prefix tr s : reach tr s -> exists rest, written_h (hist s) = read_h (hist s) ++ rest.
+Proof. intros R. exists (in_flight s). symmetry. now apply (stream_exact tr). Qed.
+
+(* a Read that returns an error returns no bytes; a Read never returns more than its buffer holds *)
+Lemma read_events_ok tr s n d r : reach tr s -> In (EvR n d r) (hist s) -> (r <> ROk -> d = []) /\ lenN d <= n.
+Proof.
+  intros R Hin. pose proof (i_hist_err _ (reach_inv _ _ R)) as F.
+  rewrite Forall_forall in F. exact (F _ Hin).
+Qed.
+
+(* a Write that started after Close fails with ErrConnectionClosed (and contributes nothing: written_h ignores it) *)
+Lemma write_after_close tr s p r : reach tr s -> In (EvW p true r) (hist s) -> r = WClosed.
+Proof.
+  intros R Hin. pose proof (i_hist_sc _ (reach_inv _ _ R)) as F.
+  rewrite Forall_forall in F. exact (F _ Hin).
+Qed.
+
+(* the log up to and including an event *)
+Lemma eof_ok_split h1 e h2 : eof_ok (h1 ++ e :: h2) -> is_eof e = true -> read_h (e :: h2) = written_h (e :: h2).
+Proof. induction h1 as [|x h1 IH]; cbn [app eof_ok]; intros [H1 H2] He; auto. Qed.
+
+(* every EOF was returned after Close and at a moment when everything written so far had been read *)
+Lemma eof_means_drained tr s later n d earlier :
+  reach tr s -> hist s = later ++ EvR n d REof :: earlier ->
+  stopped s = true /\ d = [] /\ read_h earlier = written_h earlier.
+Proof.
+  intros R Hh. pose proof (reach_inv _ _ R) as I.
+  split; [|split].
+  - apply (i_eof_stopped _ I). rewrite Hh. rewrite existsb_app. cbn. now rewrite orb_true_r.
+  - destruct (read_events_ok tr s n d REof R) as [Hd _]; [rewrite Hh; apply in_or_app; right; left; reflexivity|].
+    apply Hd. discriminate.
+  - pose proof (i_eof _ I) as E. rewrite Hh in E. apply eof_ok_split in E; [|reflexivity].
+    cbn in E. destruct (read_events_ok tr s n d REof R) as [Hd _]; [rewrite Hh; apply in_or_app; right; left; reflexivity|].
+    rewrite (Hd ltac:(discriminate)), app_nil_r in E. exact E.
+Qed.
+
+(* the channel never holds more than its capacity *)
+Lemma chan_bounded tr s : reach tr s -> lenN (chan s) <= chan_cap.
+Proof. intros R. exact (i_cap _ (reach_inv _ _ R)). Qed.
+
+(* ---------- the pair ---------- *)
+Lemma step_close_total s : exists s', step s LClose = Some s'.
+Proof. unfold step. destruct (wp s), (rp s); eauto. Qed.
+
+Lemma preach_proj tr s : preach tr s -> (exists t1, reach t1 (ab s)) /\ (exists t2, reach t2 (ba s)).
+Proof.
+  unfold preach. assert (G : forall tr s0 s, (exists t1, reach t1 (ab s0)) /\ (exists t2, reach t2 (ba s0)) ->
+                            prun s0 tr = Some s -> (exists t1, reach t1 (ab s)) /\ (exists t2, reach t2 (ba s))).
+  { clear. intros tr. induction tr as [|l tr IH]; intros s0 s H0 Hr; cbn in Hr.
+    - inversion Hr; subst; exact H0.
+    - destruct (pstep s0 l) as [s1|] eqn:E; [|discriminate]. apply (IH s1 s); auto.
+      destruct H0 as [[t1 R1] [t2 R2]]. unfold reach in *.
+      destruct l as [l|l|]; unfold pstep in E.
+      + destruct (is_close l); [discriminate|]. destruct (step (ab s0) l) as [d|] eqn:Ed; [|discriminate].
+        inversion E; subst; cbn. split; [exists (t1 ++ [l])|exists t2; exact R2].
+        rewrite run_app, R1. cbn [run]. now rewrite Ed.
+      + destruct (is_close l); [discriminate|]. destruct (step (ba s0) l) as [d|] eqn:Ed; [|discriminate].
+        inversion E; subst; cbn. split; [exists t1; exact R1|exists (t2 ++ [l])].
+        rewrite run_app, R2. cbn [run]. now rewrite Ed.
+      + destruct (step (ab s0) LClose) as [d1|] eqn:E1; [|discriminate].
+        destruct (step (ba s0) LClose) as [d2|] eqn:E2; [|discriminate].
+        inversion E; subst; cbn. split; [exists (t1 ++ [LClose])|exists (t2 ++ [LClose])].
+        * rewrite run_app, R1. cbn [run]. now rewrite E1.
+        * rewrite run_app, R2. cbn [run]. now rewrite E2. }
+  intros Hr. apply (G tr pinit s); auto. split; exists []; reflexivity.
+Qed.
+
+(* ---------- call level: what a Read returns once the pipe is closed ---------- *)
+Definition read_done (s' : dstate) (n : N) (h0 : list ev) : Prop :=
+  rp s' = RIdle /\ wp s' = WIdle /\ exists d, hist s' = EvR n d ROk :: h0.
+
+Lemma r_copy_shape t n rem acc h0 :
+  wp t = WIdle -> hist t = h0 ->
+  let t' := r_copy t n rem acc in
+  wp t' = WIdle /\ (read_done t' n h0 \/ (exists rem' acc', rp t' = RNeed n rem' acc' false /\ hist t' = h0)).
+Proof.
+  intros Hw Hh. cbv zeta. destruct (r_copy_cases t n rem acc) as (_ & _ & _ & _ & Ewp & C). cbv zeta in C.
+  split; [congruence|].
+  destruct C as [(_ & Hr & _ & Hh')|(_ & Hr & _ & Hh' & _)].
+  - left. repeat split; try congruence. eexists. rewrite Hh', Hh. reflexivity.
+  - right. do 2 eexists. split; [exact Hr|congruence].
+Qed.
+
+Lemma loop_ok fuel : forall s n h0,
+  wp s = WIdle ->
+  (read_done s n h0 \/ (exists rem acc, rp s = RNeed n rem acc false /\ hist s = h0)) ->
+  forall s', In s' (read_loop fuel s) -> read_done s' n h0.
+Proof.
+  induction fuel as [|f IH]; intros s n h0 Hw Hs s' Hin.
+  - destruct Hs as [Hd|(rem & acc & Hr & Hh)].
+    + pose proof Hd as (Hr & _). cbn in Hin. rewrite Hr in Hin. destruct Hin as [<-|[]]. exact Hd.
+    + cbn in Hin. rewrite Hr in Hin. destruct Hin.
+  - destruct Hs as [Hd|(rem & acc & Hr & Hh)].
+    + pose proof Hd as (Hr & _). cbn in Hin. rewrite Hr in Hin. destruct Hin as [<-|[]]. exact Hd.
+    + cbn [read_loop] in Hin. rewrite Hr in Hin.
+      assert (Hslow : step s LWSendSlow = None) by (unfold step; rewrite Hw; reflexivity).
+      assert (Hfast : step s LRTakeFast = r_take s n rem acc) by (unfold step; rewrite Hr; destruct (wp s); reflexivity).
+      assert (Hdef : step s LRTakeDefault = if is_nil (chan s) then Some (r_finish s n acc ROk) else None)
+        by (unfold step; rewrite Hr; destruct (wp s); reflexivity).
+      rewrite Hslow, app_nil_r, Hfast, Hdef in Hin.
+      unfold r_take in Hin. destruct (chan s) as [|b rest] eqn:Ec.
+      * cbn [is_nil] in Hin. (* RTakeDefault with mb = false: return what we have *)
+        assert (E : read_loop f (r_finish s n acc ROk) = [r_finish s n acc ROk]) by (destruct f; reflexivity).
+        rewrite E in Hin. destruct Hin as [<-|[]]. repeat split; cbn; auto. eexists. now rewrite Hh.
+      * match type of Hin with In _ (read_loop f ?t) => set (t' := t) in * end.
+        assert (Hc := r_copy_shape (mkD rest b (stopped s) (wdl s) (rdl s) (wp s) (rp s) (hist s)) n rem acc h0 Hw Hh).
+        cbv zeta in Hc. destruct Hc as [Hw' Hc]. apply (IH t' n h0 Hw' Hc s' Hin).
+Qed.
+
+Lemma loop_from_ok o n h0 s' :
+  (forall s, o = Some s -> wp s = WIdle /\ (read_done s n h0 \/ (exists rem acc, rp s = RNeed n rem acc false /\ hist s = h0))) ->
+  In s' (loop_from o) -> read_done s' n h0.
+Proof.
+  intros H Hin. destruct o as [s|]; [|destruct Hin]. destruct (H s eq_refl) as [Hw Hs].
+  unfold loop_from in Hin. eapply loop_ok; eauto.
+Qed.
+
+(* while something is still buffered, a Read (non-empty buffer, idle writer) returns data with a nil error:
+   never EOF, never a timeout, and it does not park — whatever the deadline and whether or not the pipe is closed *)
+Lemma read_gets_data s soon n :
+  rp s = RIdle -> wp s = WIdle -> n <> 0 -> (cur s <> [] \/ chan s <> []) ->
+  forall s', In s' (exec_read s soon n) -> read_done s' n (hist s).
+Proof.
+  intros Hr Hw Hn Hdata s' Hin.
+  unfold exec_read in Hin. apply in_flat_map in Hin. destruct Hin as (s1 & Hin1 & Hin2).
+  assert (D : read_done s1 n (hist s)).
+  { unfold read_start in Hin1.
+    assert (E : step s (LRStart n) = Some (r_head s n n [] true)) by (unfold step; rewrite Hr; destruct (wp s); reflexivity).
+    rewrite E in Hin1. unfold r_head in *. apply N.eqb_neq in Hn. rewrite Hn in *.
+    destruct (cur s) as [|c cs] eqn:Ec.
+    - destruct (chan s) as [|b rest] eqn:Ech; [destruct Hdata; congruence|].
+      cbn [rp set_rp] in Hin1.
+      assert (F : step (set_rp s (RNeed n n [] true)) LRTakeFast =
+                  Some (r_copy (mkD rest b (stopped s) (wdl s) (rdl s) (wp s) (RNeed n n [] true) (hist s)) n n []))
+        by (unfold step, r_take, set_rp; cbn [rp wp chan cur stopped wdl rdl hist]; rewrite Hw, Ech; reflexivity).
+      rewrite F in Hin1. eapply loop_from_ok; [|exact Hin1].
+      intros t Et. inversion Et; subst t.
+      apply (r_copy_shape (mkD rest b (stopped s) (wdl s) (rdl s) (wp s) (RNeed n n [] true) (hist s)) n n [] (hist s)); auto.
+    - pose proof (r_copy_shape s n n [] (hist s) Hw eq_refl) as Hc. cbv zeta in Hc.
+      set (t := r_copy _ n n []) in *. destruct Hc as [Hw' Hc].
+      assert (Hin1' : In s1 (loop_from (Some t))).
+      { destruct Hc as [(Hrt & _)|(rem' & acc' & Hrt & _)]; rewrite Hrt in Hin1; exact Hin1. }
+      eapply loop_from_ok; [|exact Hin1']. intros t0 Et. inversion Et; subst t0. auto. }
+  destruct D as (Hr1 & Hw1 & Hd). unfold settle_r, r_parked in Hin2. rewrite Hr1 in Hin2.
+  destruct Hin2 as [<-|[]]. repeat split; auto.
+Qed.
+
+(* closed, nothing buffered, no expired deadline: Read returns io.EOF at once (exactly one outcome) *)
+Lemma eof_when_drained s n :
+  rp s = RIdle -> stopped s = true -> n <> 0 -> cur s = [] -> chan s = [] -> rdl s <> DFired ->
+  exec_read s false n = [r_finish (set_rp s (RAfterStop n n)) n [] REof].
+Proof.
+  intros Hr Hs Hn Hc Hch Hdl. apply N.eqb_neq in Hn.
+  destruct s as [ch cu st wd rd w r h]. cbn in *. subst.
+  unfold exec_read, read_start, step, r_head. cbn. rewrite Hn. cbn.
+  destruct w; cbn; rewrite ?Hn; cbn; destruct rd; try congruence; cbn; reflexivity.
+Qed.
+
+(* closed: a Write fails with ErrConnectionClosed, nothing is queued (exactly one outcome) *)
+Lemma write_fails_when_closed s soon p :
+  wp s = WIdle -> stopped s = true ->
+  exec_write s soon p = [w_finish (set_wp s (WChk p true)) p true WClosed].
+Proof.
+  intros Hw Hs. destruct s as [ch cu st wd rd w r h]. cbn in *. subst.
+  unfold exec_write, write_start, step. cbn. destruct r; reflexivity.
+Qed.
